@@ -209,7 +209,7 @@ func (s *Sim) Gen(r *PRNG) Step {
 			add(k, len(s.Store.tables[KPVC]) > 0)
 		case "prel":
 			add(k, procParked)
-		case "replicas", "slots", "xslots", "scalein", "scaleout", "template", "partition", "strategy", "pause", "touch", "histlimit", "slotadd", "resubmit", "delset", "policy":
+		case "replicas", "slots", "xslots", "scalein", "scaleout", "template", "partition", "strategy", "pause", "touch", "histlimit", "slotadd", "resubmit", "delset", "policy", "claimtmpl":
 			add(k, sets)
 		default:
 			add(k, true)
@@ -321,6 +321,8 @@ func (s *Sim) Gen(r *PRNG) Step {
 		st.A, st.B = r.Intn(nsets), r.Intn(2)
 	case "touch":
 		st.A, st.B, st.C = r.Intn(nsets), r.Intn(100), r.Intn(2)
+	case "claimtmpl":
+		st.A, st.B = r.Intn(nsets), r.Intn(3)
 	case "histlimit":
 		st.A, st.B = r.Intn(nsets), r.Intn(4)
 	case "resubmit", "mkset", "upgrade":
